@@ -3,27 +3,31 @@ from core import prop, EXPLAIN, ASSUME
 import rules_asm  # noqa
 
 prop("C04", ["T-ASM-SIZE", "T-HANDBUILT", "T-ASMLINE-SIBLINGS", "T-OPT-SIZE"])
-prop("C13", ["T-ASM-MODE"])
-prop("C17", ["T-ASM-PORT"])
+
+
 import rules_tables  # noqa
-prop("C01", ["T-PREC", "T-BRANCH", "T-CMPXFORM"])
+
 prop("C03", ["T-LB-EQUIV", "T-LB-RANGE", "T-ASMLINE-SIBLINGS", "T-HANDBUILT", "T-CMPXFORM"])
 import rules_literals  # noqa
-prop("C09", ["T-ESC", "T-STR-NUL"])
+prop("C09", ["T-ESC", "T-STR-NUL", "T-CPP-SCAN-SIBLINGS"])
 import rules_cpp  # noqa
 prop("C07", ["T-CPP-FSM", "T-CPP-GUARD", "T-CPP-EVAL"])
 prop("C08", ["T-CPP-REGEX", "T-CPP-PARALLEL", "T-CPP-D"])
 prop("C06", ["T-LINEMAP", "T-ERR-SOURCE", "T-LOC-SIBLINGS"])
 import rules_opt  # noqa
 prop("C02", ["T-OPT-PROT", "T-OPT-KILL", "T-OPT-BARRIER", "T-INLINE-COPY", "T-OPT-SIZE"])
-prop("C14", ["T-INLINE-COPY", "T-INLINE-LABELS"])
-prop("C18", ["T-CSLEEP", "T-DUMMY-ZP", "T-PROTECT-REGION", "T-OPT-PROT", "T-OPT-BARRIER"])
+prop("C14", ["T-INLINE-COPY", "T-INLINE-LABELS", "T-LABEL-KILL", "T-LABEL-UNIQUE"])
+prop("C18", ["T-CSLEEP", "T-DUMMY-ZP", "T-PROTECT-REGION", "T-OPT-PROT", "T-OPT-BARRIER", "T-FLAGS-DIRTY"])
 prop("C10", ["T-PREC", "T-CALC-OPS", "T-FOLD", "T-DIV-GUARD", "T-SIZEOF"])
 import rules_total  # noqa
 import rules_treewalk  # noqa
-prop("C16", ["T-TREEWALK", "T-PRATT-TOTAL", "T-TOKEN-DOMAIN", "T-ERR-UNWRAP", "T-LOC-INDEX", "T-VARIANT-FLOW", "T-DIV-GUARD"])
+prop("C16", ["T-TREEWALK", "T-PRATT-TOTAL", "T-TOKEN-DOMAIN", "T-ERR-UNWRAP", "T-LOC-INDEX", "T-VARIANT-FLOW", "T-DIV-GUARD", "T-INUSE-CLOSURE"])
 import rules_misc  # noqa
 prop("C12", ["T-CALL-EMIT", "T-CALL-RECORD", "T-CALL-WRITERS", "T-INUSE-CLOSURE"])
-prop("C11", ["T-OPTION-CONFINE", "T-ASMLINE-SIBLINGS"])
+prop("C11", ["T-OPTION-CONFINE", "T-ASMLINE-SIBLINGS", "T-CPP-SCAN-SIBLINGS"])
 prop("C05", ["T-HASH-ITER", "T-ORDER-FRESH", "T-NONDET-API"])
-prop("C15", ["T-CMPXFORM"])
+prop("C15", ["T-CMPXFORM", "T-FLAGS-DIRTY", "T-LABEL-KILL"])
+import rules_flow  # noqa
+prop("C01", ["T-PREC", "T-BRANCH", "T-CMPXFORM", "T-STACK-PAIR", "T-FLAGS-DIRTY", "T-LABEL-KILL"])
+prop("C13", ["T-ASM-MODE", "T-LABEL-UNIQUE", "T-LABEL-DEF", "T-INLINE-LABELS", "T-HANDBUILT"])
+prop("C17", ["T-ASM-PORT", "T-RMW-GUARD"])
